@@ -1113,9 +1113,23 @@ def tree_run(rng, nm, nw, nroots, max_steps=600):
     from bqskit.runtime.message import RuntimeMessage as M
     from bqskit.runtime.direction import MessageDirection as Dn
     from bqskit.runtime.task import RuntimeTask
+    import bqskit.runtime.base as base
     W = TreeWorld(nm, nw)
     log, findings = [], []
     prog, kids, parent, mbox = {}, {}, {}, {}
+    old_random = base.random
+    base.random = pyrandom.Random(rng.getrandbits(32))     # shuffle / tie-breaks of every node follow the seed
+    try:
+        return _tree_run(rng, W, nroots, max_steps, log, findings, prog, kids, parent, mbox)
+    finally:
+        base.random = old_random
+
+
+def _tree_run(rng, W, nroots, max_steps, log, findings, prog, kids, parent, mbox):
+    from bqskit.runtime.message import RuntimeMessage as M
+    from bqskit.runtime.direction import MessageDirection as Dn
+    from bqskit.runtime.task import RuntimeTask
+    nm, nw = W.nm, W.nw
 
     def new_task(owner, slot, anc, depth):
         mb = mbox.get(owner, 0)
@@ -1374,7 +1388,10 @@ def run(ctx: vf.Ctx):
                 ctx.case(('ex', sc.name, path), nontrivial=True)
         ctx.count('exhaustive_states', stats['states'])
         ctx.count('exhaustive_waiting_crossing_batch', stats['crossings'])
-    ctx.cov['exhaustive'] = ex_stats
+    ctx.cov['exhaustive_scenarios'] = ex_stats       # each scenario's reachable state graph was enumerated completely unless capped
+    ctx.cov['states'] = sum(v['states'] for v in ex_stats.values())
+    ctx.cov['transitions'] = sum(v['edges'] for v in ex_stats.values())
+    ctx.cov['traces_validated_against_impl'] = len(cases) if have_model else 0
 
     # ---- generated arithmetic vs the real methods ---------------------------------
     alines, aimpl, akeys, arefs = arith_cases(ctx, ctx.n(400, 20000) * scale)
